@@ -34,6 +34,7 @@ Proof.
   - rewrite ttoks_group. eexists _, _. split; reflexivity.
   - rewrite (ttoks_binary (ECond neg e1 e2) _ _ _ eq_refl). destruct (IHe1 ltac:(assumption)) as (t & r & -> & Ht). eexists _, _. split; [reflexivity|exact Ht].
   - rewrite (ttoks_binary (EElse e1 e2) _ _ _ eq_refl). destruct (IHe1 ltac:(assumption)) as (t & r & -> & Ht). eexists _, _. split; [reflexivity|exact Ht].
+  - destruct s; [|discriminate]. rewrite (ttoks_binary (ESeq Semi e1 e2) _ _ _ eq_refl). destruct (IHe1 ltac:(assumption)) as (t & r & -> & Ht). eexists _, _. split; [reflexivity|exact Ht].
   - rewrite ttoks_nested. eexists _, _. split; reflexivity.
   - rewrite ttoks_reapply. eexists _, _. split; reflexivity.
 Qed.
@@ -67,6 +68,8 @@ Proof.
     exists (ttoks e1 ++ W :: cond_tt neg :: W :: r), t. split; [rewrite <- app_assoc; reflexivity|exact Ht].
   - rewrite (ttoks_binary (EElse e1 e2) _ _ _ eq_refl). destruct (IHe2 ltac:(assumption)) as (r & t & -> & Ht).
     exists (ttoks e1 ++ W :: TT_ElseJump :: W :: r), t. split; [rewrite <- app_assoc; reflexivity|exact Ht].
+  - destruct s; [|discriminate]. rewrite (ttoks_binary (ESeq Semi e1 e2) _ _ _ eq_refl). destruct (IHe2 ltac:(assumption)) as (r & t & -> & Ht).
+    exists (ttoks e1 ++ W :: TT_ExpressionSeparator :: W :: r), t. split; [rewrite <- app_assoc; reflexivity|exact Ht].
   - rewrite ttoks_nested. exists (TT_StartExpression :: W :: ttoks e ++ [W]), TT_EndExpression.
     split; [cbn [app]; rewrite <- app_assoc; reflexivity|reflexivity].
   - rewrite ttoks_reapply. destruct (IHe ltac:(assumption)) as (r & t & -> & Ht). exists (TT_Reapply :: W :: r), t. split; [reflexivity|exact Ht].
@@ -204,9 +207,10 @@ Proof.
   - apply Forall_app. split; [apply IHe1; assumption|constructor; [exact I|apply IHe2; assumption]].
   - apply Forall_app. split; [apply IHe1; assumption|constructor; [exact I|apply IHe2; assumption]].
   - destruct k; apply Forall_app; (split; [apply IHe1; assumption|constructor; [exact I|apply IHe2; assumption]]).
-  - constructor; [exact I|]. apply Forall_app. split; [apply IHe; exact F|constructor; [exact I|constructor]].
+  - constructor; [exact I|]. apply Forall_app. split; [apply IHe; assumption|constructor; [exact I|constructor]].
   - apply Forall_app. split; [apply IHe1; assumption|constructor; [exact I|apply IHe2; assumption]].
   - apply Forall_app. split; [apply IHe1; assumption|constructor; [exact I|apply IHe2; assumption]].
+  - destruct s; [|discriminate]. cbn [eitems]. apply Forall_app. split; [apply IHe1; assumption|constructor; [exact I|apply IHe2; assumption]].
   - constructor; [exact I|]. apply Forall_app. split; [apply IHe; assumption|constructor; [exact I|constructor]].
   - constructor; [exact I|apply IHe; assumption].
 Qed.
@@ -223,65 +227,65 @@ Fixpoint acc_ok (fl : bool) (e : expr) : bool :=
   | EGroup x => acc_ok false x
   | ENested _ b => acc_ok false b
   | EReapply x => acc_ok (is_access (hdef e)) x
-  | EBin _ l r | EAnd l r | EOr l r | EList _ l r | ECond _ l r | EElse l r =>
+  | EBin _ l r | EAnd l r | EOr l r | EList _ l r | ECond _ l r | EElse l r | ESeq _ l r =>
       acc_ok fl l && acc_ok (is_access (hdef e)) r
   | _ => true
   end.
 
-Lemma wf_true_false lvl e : efrag lvl e = true -> wf true e = true -> wf false e = true.
-Proof. destruct e; intros F H; try discriminate F; exact H. Qed.
-
-Lemma wf_acc_ok lvl : forall e, efrag lvl e = true -> wf false e = true -> paren_ok e = true -> acc_ok false e = true.
+Lemma wf_acc_ok lvl : forall e body, efrag lvl e = true -> wf body e = true -> paren_ok e = true -> acc_ok false e = true.
 Proof.
-  induction e; intros F Wf P; try discriminate F; cbn [efrag] in F;
+  induction e; intros body F Wf P; try discriminate F; cbn [efrag] in F;
     repeat (apply andb_true_iff in F; let G := fresh "G" in destruct F as [F G]).
   - destruct l; try reflexivity. discriminate Wf.
   - reflexivity.
   - reflexivity.
   - cbn [acc_ok]. cbn [wf] in Wf. pose proof (paren_ok_un _ _ P) as Px.
-    destruct (is_prefix o) eqn:Ho; [|apply IHe; assumption].
+    destruct (is_prefix o) eqn:Ho; [|apply (IHe false); assumption].
     replace (is_access (hdef (EUn o e))) with false by (destruct o; try discriminate Ho; reflexivity).
-    apply IHe; assumption.
+    apply (IHe false); assumption.
   - (* binary operators: access is the special one *)
     destruct (paren_ok_binary (EBin o e1 e2) _ _ _ eq_refl P) as [P1 P2].
     pose proof (ok_children_binary (EBin o e1 e2) _ _ _ eq_refl (paren_ok_children _ P)) as Hc.
     cbn [acc_ok]. destruct o;
       try (cbn [wf] in Wf; apply andb_true_iff in Wf; destruct Wf as [W1 W2];
            change (is_access (hdef (EBin _ e1 e2))) with false;
-           rewrite (IHe1 F W1 P1), (IHe2 G W2 P2); reflexivity).
+           rewrite (IHe1 false F W1 P1), (IHe2 false G W2 P2); reflexivity).
     change (is_access (hdef (EBin BAccess e1 e2))) with true.
     change (ref_rtl (hdef (EBin BAccess e1 e2))) with false in Hc. cbv iota in Hc. destruct Hc as [_ Hr].
-    destruct e2; try discriminate G; try (destruct o); try (destruct k); try (destruct neg); try (vm_compute in Hr; discriminate Hr).
+    destruct e2; try discriminate G; try (destruct o); try (destruct k); try (destruct neg); try (destruct s); try (vm_compute in Hr; discriminate Hr).
     + (* a literal *)
       destruct l.
       all: try (cbn [wf] in Wf; apply andb_true_iff in Wf; destruct Wf as [W1 W2];
-                cbn [acc_ok]; rewrite (IHe1 F W1 P1); reflexivity).
-    + cbn [wf] in Wf. apply andb_true_iff in Wf. destruct Wf as [W1 W2]. cbn [acc_ok]. rewrite (IHe1 F W1 P1). reflexivity.
+                cbn [acc_ok]; rewrite (IHe1 false F W1 P1); reflexivity).
+    + cbn [wf] in Wf. apply andb_true_iff in Wf. destruct Wf as [W1 W2]. cbn [acc_ok]. rewrite (IHe1 false F W1 P1). reflexivity.
     + discriminate Wf.
     + cbn [wf] in Wf. apply andb_true_iff in Wf. destruct Wf as [W1 W2].
-      cbn [acc_ok]. rewrite (IHe1 F W1 P1). cbn [andb]. apply (IHe2 G W2 P2).
+      cbn [acc_ok]. rewrite (IHe1 false F W1 P1). cbn [andb]. apply (IHe2 false G W2 P2).
     + cbn [wf] in Wf. apply andb_true_iff in Wf. destruct Wf as [W1 W2].
-      cbn [acc_ok]. rewrite (IHe1 F W1 P1). cbn [andb]. apply (IHe2 G W2 P2).
+      cbn [acc_ok]. rewrite (IHe1 false F W1 P1). cbn [andb]. apply (IHe2 false G W2 P2).
   - destruct (paren_ok_binary (EAnd e1 e2) _ _ _ eq_refl P) as [P1 P2].
     cbn [wf] in Wf. apply andb_true_iff in Wf. destruct Wf as [W1 W2]. cbn [acc_ok].
-    change (is_access (hdef (EAnd e1 e2))) with false. rewrite IHe1, IHe2; auto.
+    change (is_access (hdef (EAnd e1 e2))) with false. rewrite (IHe1 false), (IHe2 false); auto.
   - destruct (paren_ok_binary (EOr e1 e2) _ _ _ eq_refl P) as [P1 P2].
     cbn [wf] in Wf. apply andb_true_iff in Wf. destruct Wf as [W1 W2]. cbn [acc_ok].
-    change (is_access (hdef (EOr e1 e2))) with false. rewrite IHe1, IHe2; auto.
+    change (is_access (hdef (EOr e1 e2))) with false. rewrite (IHe1 false), (IHe2 false); auto.
   - assert (Hb : exists t, as_binary (EList k e1 e2) = Some (t, e1, e2)) by (destruct k; eexists; reflexivity).
     destruct Hb as [t Hb]. destruct (paren_ok_binary (EList k e1 e2) _ _ _ Hb P) as [P1 P2].
     cbn [wf] in Wf. apply andb_true_iff in Wf. destruct Wf as [W1 W2]. cbn [acc_ok].
-    replace (is_access (hdef (EList k e1 e2))) with false by (destruct k; reflexivity). rewrite IHe1, IHe2; auto.
-  - cbn [wf] in Wf. cbn [acc_ok]. apply IHe; [exact F|exact Wf|exact (paren_ok_group _ P)].
+    replace (is_access (hdef (EList k e1 e2))) with false by (destruct k; reflexivity). rewrite (IHe1 false), (IHe2 false); auto.
+  - cbn [wf] in Wf. cbn [acc_ok]. apply (IHe false); [assumption|exact Wf|exact (paren_ok_group _ P)].
   - destruct (paren_ok_binary (ECond neg e1 e2) _ _ _ eq_refl P) as [P1 P2].
     cbn [wf] in Wf. apply andb_true_iff in Wf. destruct Wf as [W1 W2]. cbn [acc_ok].
-    replace (is_access (hdef (ECond neg e1 e2))) with false by (destruct neg; reflexivity). rewrite IHe1, IHe2; auto.
+    replace (is_access (hdef (ECond neg e1 e2))) with false by (destruct neg; reflexivity). rewrite (IHe1 false), (IHe2 false); auto.
   - destruct (paren_ok_binary (EElse e1 e2) _ _ _ eq_refl P) as [P1 P2].
     cbn [wf] in Wf. repeat (apply andb_true_iff in Wf; let W := fresh "W" in destruct Wf as [Wf W]). cbn [acc_ok].
-    change (is_access (hdef (EElse e1 e2))) with false. rewrite IHe1, IHe2; auto.
-  - cbn [wf] in Wf. cbn [acc_ok]. apply IHe; [assumption|eapply wf_true_false; eauto|exact (paren_ok_nested _ _ P)].
+    change (is_access (hdef (EElse e1 e2))) with false. rewrite (IHe1 false), (IHe2 false); auto.
+  - destruct s; [|discriminate]. destruct (paren_ok_binary (ESeq Semi e1 e2) _ _ _ eq_refl P) as [P1 P2].
+    cbn [wf] in Wf. repeat (apply andb_true_iff in Wf; let W := fresh "W" in destruct Wf as [Wf W]). cbn [acc_ok].
+    change (is_access (hdef (ESeq Semi e1 e2))) with false. rewrite (IHe1 true), (IHe2 true); auto.
+  - cbn [wf] in Wf. cbn [acc_ok]. apply (IHe true); [assumption|exact Wf|exact (paren_ok_nested _ _ P)].
   - cbn [wf] in Wf. cbn [acc_ok]. change (is_access (hdef (EReapply e))) with false.
-    apply IHe; [assumption|exact Wf|exact (paren_ok_reapply _ P)].
+    apply (IHe false); [assumption|exact Wf|exact (paren_ok_reapply _ P)].
 Qed.
 
 (* ---- from the erased tree and the invariant to the correspondence ---- *)
@@ -333,6 +337,9 @@ Proof.
   - cbn [rtree_of_expr rep acc_ok] in *. apply andb_true_iff in A. destruct A as [A1 A2].
     destruct T as [| | |i d k tl tr|]; try discriminate E. cbn [erase] in E. injection E as Ed Ek El Er. destruct Pf as [Pl Pr].
     subst d. split; [reflexivity|]. split; [exact Ek|]. split; [eapply IHe1; eauto|eapply IHe2; eauto].
+  - destruct s; [|discriminate]. cbn [rtree_of_expr rep acc_ok] in *. apply andb_true_iff in A. destruct A as [A1 A2].
+    destruct T as [| | |i d k tl tr|]; try discriminate E. cbn [erase] in E. injection E as Ed Ek El Er. destruct Pf as [Pl Pr].
+    subst d. split; [reflexivity|]. split; [exact Ek|]. split; [eapply IHe1; eauto|eapply IHe2; eauto].
   - cbn [rtree_of_expr rep acc_ok] in *.
     destruct T as [| | | |b i k a]; try discriminate E. cbn [erase] in E. injection E as Eb Ek Ea. subst b. cbn [pfix] in Pf.
     split; [exact Ek|]. eapply IHe; eauto.
@@ -342,7 +349,7 @@ Proof.
 Qed.
 
 (* ---- the parser model on the printed tokens ---- *)
-Theorem parse_printed lvl e : efrag lvl e = true -> wf false e = true -> paren_ok e = true ->
+Theorem parse_printed lvl e body : efrag lvl e = true -> wf body e = true -> paren_ok e = true ->
   exists Tn ns,
     parse (ttoks e) = Ok (nid Tn, ns) /\
     Compile.tree_of ns (nid Tn) = Some (img Tn) /\
@@ -354,6 +361,6 @@ Proof.
   rewrite (items_of_printed lvl e F) in Hits. injection Hits as <-.
   exists Tn, ns. split; [exact Hp|]. split; [eapply denotes_tree_of; eauto|]. split; [exact DT|]. split; [exact OT|].
   split; [|exact Cov].
-  eapply (erase_rep lvl e false); [exact F|apply (wf_acc_ok lvl); assumption| |symmetry; exact ET].
+  eapply (erase_rep lvl e false); [exact F|apply (wf_acc_ok lvl e body); assumption| |symmetry; exact ET].
   eapply spine_insert_pfix; [apply (eitems_noprop lvl); exact F|exact Hins].
 Qed.
